@@ -19,6 +19,8 @@ from vlib.kernel import dataflows, run_steps, mkdesc, quiet
 IN_TYPES = ['string', 'integer', 'number', 'date', 'boolean']
 FNAMES = ['a', 'b', 'ab', 'c_d', 'val', 'n1', 'n2', 'txt', 'A', 'é']
 
+PROTECTED = set()
+
 # ----------------------------------------------------------------------------- kinds
 FIELD_KINDS = ['add_field', 'add_computed', 'delete_fields', 'select_fields', 'rename_fields', 'find_replace',
                'set_type', 'validate']
@@ -381,7 +383,9 @@ def _draw_spec(draw, state, kinds, counter):
     res = draw(st.sampled_from(state))
     rn = res['name']
     sel = draw(st.sampled_from([[rn], rn] if _plain(rn) else [[rn]]))
-    names = [f['name'] for f in res['fields']]
+    # PROTECTED fields (provenance markers of a harness) are never edited, renamed or dropped by drawn steps
+    names = [f['name'] for f in res['fields'] if f['name'] not in PROTECTED]
+    res = dict(res, fields=[f for f in res['fields'] if f['name'] not in PROTECTED])
     need(names or k in RES_KINDS + OBSERVER_KINDS + ['rows_fn', 'package_fn', 'validate'])
     n = counter[0]
     counter[0] += 1
@@ -413,7 +417,8 @@ def _draw_spec(draw, state, kinds, counter):
         return {'k': k, 'fields': [draw(st.sampled_from(names[1:]))], 'res': sel}
     if k == 'select_fields':
         sub = draw(st.lists(st.sampled_from(names), min_size=1, max_size=len(names), unique=True))
-        return {'k': k, 'fields': sub, 'res': sel}
+        return {'k': k, 'fields': sub + sorted(PROTECTED & {f['name'] for f in state[[r['name'] for r in state].index(rn)]['fields']}),
+                'res': sel}
     if k == 'rename_fields':
         form = draw(st.sampled_from(['fresh', 'fresh', 'swap', 'chain']))
         if form != 'fresh' and len(names) >= 2:
